@@ -224,6 +224,27 @@ def c09_case(acc, sp, kw, rng, tier, twin=False):
                           {"got": aux_r, "want": mine_aux}, W(what))
         for i in range(shape_state[0]):
             row = o2[i]
+            # every entry of a host row is a documented value: one-hot
+            # address (or all zero when the row is not observed), 0/1 flags,
+            # access 0/1/2, 0/1 OS / service / process flags
+            bad_cell = None
+            for sl in (lay.sub, lay.host):
+                seg = row[sl]
+                if not (np.all((seg == 0) | (seg == 1)) and seg.sum() <= 1):
+                    bad_cell = "address one-hot"
+            for c in (lay.COMP, lay.REACH, lay.DISC):
+                if row[c] not in (0.0, 1.0):
+                    bad_cell = f"flag column {c}"
+            if row[lay.ACCESS] not in (0.0, 1.0, 2.0):
+                bad_cell = "access"
+            for sl in (lay.os, lay.srv, lay.proc):
+                if not np.all((row[sl] == 0) | (row[sl] == 1)):
+                    bad_cell = "os/service/process flag"
+            if bad_cell:
+                acc.violation("obs_row_not_in_layout", "obs_row_not_in_layout",
+                              {"row": i, "what": bad_cell,
+                               "values": row.tolist()}, W(what))
+                break
             if not row[lay.sub].any() or not row[lay.host].any():
                 continue        # unobserved row: address undefined
             try:
@@ -326,6 +347,9 @@ def flat_representations(i, n, rng):
             yield name, ty(i)
     yield "0d-int64", np.array(i, dtype=np.int64)
     yield "0d-int32", np.array(i, dtype=np.int32)
+    ro = np.array(i, dtype=np.int64)
+    ro.setflags(write=False)
+    yield "0d-int64-readonly", ro
 
 
 def vec_representations(v):
@@ -336,6 +360,11 @@ def vec_representations(v):
     yield "list-of-np", [np.int64(x) for x in v]
     if max(v) < 256:
         yield "uint8-array", np.array(v, dtype=np.uint8)
+    ro = np.array(v, dtype=np.int64)
+    ro.setflags(write=False)
+    yield "int64-array-readonly", ro
+    yield "frombuffer", np.frombuffer(np.array(v, dtype=np.int64).tobytes(),
+                                      dtype=np.int64)
     yield "uint16-array", np.array(v, dtype=np.uint16)
     yield "uint32-array", np.array(v, dtype=np.uint32)
     yield "int8-array", np.array(v, dtype=np.int8) if max(v) < 128 \
